@@ -140,11 +140,37 @@ def rule_r1(ctx: Ctx, g: CallGraph, sinks: Set[str]) -> None:
     def base_of(q: str) -> str:
         return q[len("<lambda> ") :].rsplit(":", 1)[0] if q.startswith("<lambda> ") else q
 
+    def table_entry_for_intrinsic(q: str) -> bool:
+        """q (a function or a lambda) is the value stored under an intrinsic's name in a literal table of its module / class,
+        and is referred to nowhere else: it runs only when that name has been looked up"""
+        fn_ = g.funcs.get(base_of(q))
+        if fn_ is None:
+            return False
+        lam = g.lambdas[q][1] if q.startswith("<lambda> ") and q in g.lambdas else None
+        tree = fn_.module.tree
+        hits = 0
+        for d in ast.walk(tree):
+            if isinstance(d, ast.Dict):
+                for k_, v_ in zip(d.keys, d.values):
+                    is_me = (v_ is lam) if lam is not None else (isinstance(v_, ast.Name) and v_.id == fn_.name)
+                    if is_me:
+                        if not (isinstance(k_, ast.Constant) and k_.value in INTRINSICS):
+                            return False
+                        hits += 1
+        if not hits:
+            return False
+        if lam is None:
+            refs = sum(1 for x in ast.walk(tree) if isinstance(x, ast.Name) and x.id == fn_.name and isinstance(x.ctx, ast.Load)) + sum(1 for x in ast.walk(tree) if isinstance(x, ast.Attribute) and x.attr == fn_.name)
+            return refs == hits
+        return True
+
     def by_role(q: str, depth: int = 0) -> bool:
         """every expansion site of q runs only while an intrinsic is being evaluated"""
         fn = g.funcs.get(base_of(q))
         if fn is None or depth > 3:
             return False
+        if table_entry_for_intrinsic(q):
+            return True
         if all(_intrinsic_guarded(ctx, fn, n) for n in site_nodes.get(q, [])) and site_nodes.get(q):
             return True
         cs = callers.get(base_of(q), [])
